@@ -770,8 +770,8 @@ Section Scan.
     rewrite callx_S. cbn [nth_error cprog F_lbuf_search cf_lbuf_search fn_nparams fn_nlocals fn_body length Nat.eqb Nat.sub repeat app].
     xstep. rewrite malloc_ok by lia. xstep. change (repeat VUndef (Z.to_nat 2)) with [VUndef; VUndef]. rewrite <- Hb.
     set (m0 := m ++ [[VUndef; VUndef]]) in *.
-    rewrite (fld_load m0 br [VInt (Z.of_nat r0)] 0 _ 0) by (try reflexivity; unfold m0; rewrite nth_error_app_old by exact Lr; exact Hmr). xstep.
-    rewrite (fld_load m0 bo [VInt (Z.of_nat o0)] 0 _ 0) by (try reflexivity; unfold m0; rewrite nth_error_app_old by exact Lo; exact Hmo). xstep.
+    try change (0 + 1 * 0) with 0. rewrite (fld_load m0 br [VInt (Z.of_nat r0)] 0 _ 0) by (try reflexivity; unfold m0; rewrite nth_error_app_old by exact Lr; exact Hmr). xstep.
+    try change (0 + 1 * 0) with 0. rewrite (fld_load m0 bo [VInt (Z.of_nat o0)] 0 _ 0) by (try reflexivity; unfold m0; rewrite nth_error_app_old by exact Lo; exact Hmo). xstep.
     rewrite !wrap_I32_id by lia.
     rewrite (fld_load m0 G_xic [VInt xic] 0 _ 0) by (try reflexivity; unfold m0; rewrite nth_error_app_old by exact Lx; exact Hxic). xstep.
     rewrite wrap_I32_id by exact Ixic.
@@ -861,8 +861,8 @@ Proof.
   rewrite callx_S. cbn [nth_error cprog F_lbuf_search cf_lbuf_search fn_nparams fn_nlocals fn_body length Nat.eqb Nat.sub repeat app].
   xstep. rewrite malloc_ok by lia. xstep. change (repeat VUndef (Z.to_nat 2)) with [VUndef; VUndef].
   set (m0 := m ++ [[VUndef; VUndef]]) in *.
-  rewrite (fld_load m0 br [VInt r0] 0 _ 0) by (try reflexivity; unfold m0; rewrite nth_error_app_old by exact Lr; exact Hmr). xstep.
-  rewrite (fld_load m0 bo [VInt o0] 0 _ 0) by (try reflexivity; unfold m0; rewrite nth_error_app_old by exact Lo; exact Hmo). xstep.
+  try change (0 + 1 * 0) with 0. rewrite (fld_load m0 br [VInt r0] 0 _ 0) by (try reflexivity; unfold m0; rewrite nth_error_app_old by exact Lr; exact Hmr). xstep.
+  try change (0 + 1 * 0) with 0. rewrite (fld_load m0 bo [VInt o0] 0 _ 0) by (try reflexivity; unfold m0; rewrite nth_error_app_old by exact Lo; exact Hmo). xstep.
   rewrite (fld_load m0 G_xic [VInt xic] 0 _ 0) by (try reflexivity; unfold m0; rewrite nth_error_app_old by exact Lx; exact Hxic). xstep.
   rewrite wrap_I32_id by exact Ixic.
   assert (Emk : callx ext cprog F (S D) X_rstr_make [VPtr kb ko; VInt (if xic =? 0 then 0 else 1)] m0 = Ok (VInt 0, m1))
